@@ -80,8 +80,11 @@ static inline void gen_fixed(struct bw *w, int bfinal, const struct tok *t, int 
 	gen_block_hdr(w, bfinal, 1);
 	gen_tokens(w, t, nt, ll, llc, d, dc, 1);
 }
+static inline void shape_chain(const int *used, int n, int maxdepth, uint8_t *len);
 /* dynamic block header. style: 0 = every length written literally (complete 16-symbol code-length code, 4 bits each);
- * 1 = run-length coded with 16/17/18 (runs may straddle the lit/len -> dist boundary). hclen_min: write at least this many code-length-code lengths (4..19). */
+ * 1 = run-length coded with 16/17/18 (runs may straddle the lit/len -> dist boundary); 2 = as 1 plus zero runs spelt with symbol 16;
+ * 3 = the longest spelling: every length written literally with a code-length code that gives the MOST frequent lengths the 7-bit codes (at least 8 symbols
+ *     carry a code, unused ones take the short codes) - a 286+30 symbol header then needs about 286 bytes, more than any encoder produces. hclen_min: write at least this many code-length-code lengths (4..19). */
 static inline void gen_dyn_header(struct bw *w, int bfinal, const uint8_t *ll_len, int hlit, const uint8_t *d_len, int hdist, int style, int hclen_force)
 {
 	static const uint8_t order[19] = { 16, 17, 18, 0, 8, 7, 9, 6, 10, 5, 11, 4, 12, 3, 13, 2, 14, 1, 15 };
@@ -89,6 +92,15 @@ static inline void gen_dyn_header(struct bw *w, int bfinal, const uint8_t *ll_le
 	memcpy(all, ll_len, hlit); memcpy(all + hlit, d_len, hdist);
 	uint8_t cl[19]; uint16_t clc[19];
 	if (style == 0) { for (int i = 0; i < 16; i++) cl[i] = 4; cl[16] = cl[17] = cl[18] = 0; } /* style 1, 2: all 19 symbols have codes */
+	else if (style == 3) {
+		int freq[19] = { 0 }, ord[19], k = 0, nu = 0;
+		for (int i = 0; i < n; i++) freq[all[i]]++;
+		for (int v = 0; v < 16; v++) nu += freq[v] != 0;
+		for (int v = 18; v >= 0 && k + nu < 8; v--) if (!freq[v]) ord[k++] = v;     /* unused fillers first: they take the short codes */
+		for (int f = 1; f <= n; f++) for (int v = 0; v < 16; v++) if (freq[v] == f) ord[k++] = v; /* ascending frequency */
+		memset(cl, 0, sizeof cl);
+		shape_chain(ord, k, 7, cl);
+	}
 	else { for (int i = 0; i < 13; i++) cl[i] = 4; for (int i = 13; i < 19; i++) cl[i] = 5; }
 	gen_canon(cl, 19, clc);
 	int hclen = 19;
@@ -115,7 +127,7 @@ static inline void gen_dyn_header(struct bw *w, int bfinal, const uint8_t *ll_le
 				i += 1 + t; continue;
 			}
 		}
-		if (style >= 1) {
+		if (style == 1 || style == 2) {
 			int run = 1; while (i + run < n && all[i + run] == all[i]) run++;
 			if (all[i] == 0 && run >= 3) { int r = run > 138 ? 138 : run; if (r >= 11) { bw_code(w, clc[18], cl[18]); bw_bits(w, r - 11, 7); } else { bw_code(w, clc[17], cl[17]); bw_bits(w, r - 3, 3); } i += r; continue; }
 			if (all[i] != 0 && run >= 4) { bw_code(w, clc[all[i]], cl[all[i]]); int r = run - 1 > 6 ? 6 : run - 1; bw_code(w, clc[16], cl[16]); bw_bits(w, r - 3, 2); i += 1 + r; continue; }
